@@ -77,21 +77,30 @@ def s_model2(a):
 FNS = {f.__name__: f for f in (f_add, f_mul, f_sub, f_div, f_data, f_one, s_model, s_model2)}
 
 
-def base_model():
+def base_model(variant=0):
+    """variant 0: one of every kind incl. an initial assignment; variant 1: the same without any
+    initial assignment (some cache shortcuts are only legal there)."""
     import pandas as pd
-    from mxlpy import InitialAssignment, Model
+    from mxlpy import Derived, InitialAssignment, Model
     from mxlpy.surrogates import qss
 
     m = Model()
     m.add_variables({"x": 1.0, "y": 2.0})
-    m.add_parameters({"k": 0.5, "p": 3.0})
-    m.add_parameter("q", InitialAssignment(fn=f_data, args=["D", "k"]))
+    m.add_parameters({"k": 0.5, "p": 3.0, "st": 1.5})  # st is only ever used as a coefficient
+    if variant == 0:
+        m.add_parameter("q", InitialAssignment(fn=f_data, args=["D", "k"]))
     m.add_derived("dp", f_add, args=["k", "p"])
     m.add_derived("dv", f_mul, args=["x", "k"])
     m.add_data("D", pd.Series({"a": 2.0, "b": 1.0}))
     m.add_derived("dd", f_data, args=["D", "x"])
     m.add_reaction("v1", f_mul, args=["x", "k"], stoichiometry={"x": -1, "y": 1})
     m.add_reaction("v2", f_mul, args=["y", "dp"], stoichiometry={"y": -1})
+    # every kind of coefficient the cache pre-computes or defers: parameter name, parameter-computed, state-computed
+    m.add_reaction(
+        "v3", f_mul, args=["x", "p"],
+        stoichiometry={"x": "st", "y": Derived(fn=f_one, args=["st"])},
+    )
+    m.add_reaction("v4", f_mul, args=["y", "k"], stoichiometry={"y": Derived(fn=f_add, args=["x", "k"])})
     m.add_readout("ro", f_div, args=["x", "y"])
     m.add_surrogate(
         "s",
@@ -146,6 +155,8 @@ def _ops():
     # updates
     ops.append(("update_parameter", {"name": "k", "value": 2.0}))
     ops.append(("update_parameter", {"name": "zz", "value": 2.0}))
+    ops.append(("update_parameter", {"name": "st", "value": 2.5}))
+    ops.append(("scale_parameter", {"name": "st", "factor": 3.0}))
     ops.append(("update_parameter", {"name": "p", "value": [IA, "f_add", ["x", "y"]]}))
     ops.append(("update_variable", {"name": "x", "value": 5.0}))
     ops.append(("update_variable", {"name": "zz", "value": 5.0}))
@@ -506,8 +517,9 @@ def _same(a, b):
 
 
 def _init_state(init, hist, expect_key=None):
-    m = base_model()
-    if init == 1:
+    # init: 0 cold / 1 warm cache on base variant 0; 2 cold / 3 warm on base variant 1
+    m = base_model(init // 2)
+    if init % 2 == 1:
         m.get_args()
     for i in hist:
         try:
@@ -525,7 +537,7 @@ def check(case):
     init, hist, opi = case["init"], case["hist"], case["op"]
     op = OPS[opi]
     m = _init_state(init, hist, case.get("key"))
-    nontrivial = op[0] != "Q" and (bool(hist) or init == 1)
+    nontrivial = op[0] != "Q" and (bool(hist) or init % 2 == 1)
     before = content(m)
     expect = reference_acceptance(m, op)
     raised = None
@@ -539,7 +551,7 @@ def check(case):
     key = state_key(m)
     extra_key = {"newkey": key}
     opname = op[0]
-    hist_txt = f"init={'warm' if init else 'cold'} history={[OPS[i] for i in hist]} op={op}"
+    hist_txt = f"init={'warm' if init % 2 else 'cold'}/base{init // 2} history={[OPS[i] for i in hist]} op={op}"
 
     def bad(cls, symptom, detail):
         o = outcome(False, cls, symptom=f"{symptom}:{opname}", nontrivial=nontrivial, detail=f"{detail} | {hist_txt}")
@@ -606,7 +618,7 @@ def run(ctx):
     depth = 2 if ctx.tier == "quick" else 4
     seen = {}
     frontier = []
-    for init in (0, 1):
+    for init in (0, 1, 2, 3):
         m = _init_state(init, [])
         k = state_key(m)
         seen[k] = (init, [])
